@@ -8,7 +8,12 @@ CONFIG = {
             'existing ancestor is a regular file: ENOTDIR on both sides, nothing changes; compared with OsFs in a fresh temp dir step by step and by a final Stat/ReadDir/ReadFile sweep) '
             'and a malformed stream (15% ops outside the preconditions; model-vs-implementation only). snap/index items dump the whole '
             'path map and child index of the MemMapFs (overlay export) for comparison with the model. distinct = hash of the item list; '
-            'non-trivial = at least one successful mutation and one successful observation after it',
+            'non-trivial = at least one successful mutation and one successful observation after it. '
+            'pcase p<id> mem: the calls of case <id> once more; the implementation\'s results projected to the outcome language of the POSIX '
+            'specification (class success/not-exist/exists/closed/not-a-directory/other, handle, Stat kind+size, bytes+EOF flag, counts, offsets, page names) are '
+            'compared with the extracted model through mproj (M) and, for the prefix of the case inside wf_seq_sim (the hypothesis of C01_simulation, '
+            'decided by the extracted wf_op_sim), with the extracted specification Model/Posix.v (S): the creating calls below a regular file get '
+            'specification lines (ENOTDIR, fail:NotDir); the well-formed stream must lie inside wf_seq_sim in full (line p<id>#class)',
     'trusted_base': ['the Linux kernel filesystem (tmpfs/ext4 under os.MkdirTemp) as the reference for the oracle',
                      'path/filepath.Clean/Split/Dir modelled in Lib/Path.v (compared with the real functions in this check)'],
     'assumptions': ['relative names, names containing NUL and Rename of a directory into its own subtree are outside the modelled op set',
@@ -19,7 +24,19 @@ CONFIG = {
 MUT = ('Create', 'Mkdir', 'MkdirAll', 'OpenFile', 'Remove', 'RemoveAll', 'Rename', 'Chmod', 'Chtimes', 'HWrite', 'HWriteAt', 'HWriteString', 'HTruncate')
 OBS = ('Stat', 'Open', 'HRead', 'HReadAt', 'HReaddir', 'HReaddirnames', 'HStat')
 
+def spec_signature(key, impl, spec, lines):
+    """implementation vs POSIX specification on a step inside the precondition of C01_simulation"""
+    op = '?'
+    try:
+        op = lines[1 + int(key.split('#')[1])].split(' ')[2]
+    except Exception:
+        pass
+    return 'spec:%s:%s->%s' % (op, spec.split(':')[0] + ('-' + spec.split(':')[1] if spec.startswith('fail:') else ''),
+                               impl.split(':')[0] + ('-' + impl.split(':')[1] if impl.startswith('fail:') else ''))
+
 def nontrivial(cid, lines, r):
+    if lines[0].startswith('pcase'):
+        return False        # the same calls as the case before it
     if lines[0].startswith('pathfn'):
         return '2e' in lines[0].split(' ')[2] or '2f2f' in lines[0].split(' ')[2]
     mutated = False
